@@ -11,12 +11,25 @@
 //     is not a value (its length, where the code tests it, enters through a hint on `len(v)`); a
 //     slice-typed NAMED result all of whose assignments in the function are such recorded appends is
 //     dropped from the result tuple (the trace says what was appended to it, in order).  An append
-//     without an Acts entry stays untranslatable.
+//     without an Acts entry stays untranslatable;
+//   - `x op= e` (+= -= *= /=) is `x = x op e`;
+//   - `p = f(...)` on a pointer / opaque variable where f is an action (Acts) records the action
+//     (main.go skips pointer assignments as "not part of the decision", which would lose it);
+//   - `v := &T{...}` declares v as an opaque object when the target carries the hint key `&T{}`
+//     (type "opaque"): the literal's field values are not part of the result;
+//   - LoopFrame: N (N >= 1): the function is translated WHOLE, with its N-th top-level loop replaced
+//     by one application of the parameter `loop_fn : C -> C`, C = the tuple (alphabetical order) of
+//     the loop-carried scalar variables, exactly the ones a LoopBody target of the same loop
+//     carries.  Together with the LoopBody target of the same loop this regenerates all three parts
+//     of a function with one loop: what the carried variables start from, one iteration, and what
+//     is computed from their final values; the obligation file instantiates loop_fn with the
+//     iteration of the regenerated step.
 package main
 
 import (
 	"go/ast"
 	"go/token"
+	"sort"
 	"strings"
 )
 
@@ -118,4 +131,131 @@ func (x *tr) isAppendOnly(f *ast.Field) bool {
 		return true
 	})
 	return okAll && len(seen) == len(names)
+}
+
+// desugarOpAssign: `x op= e` -> `x = x op e`
+func desugarOpAssign(s *ast.AssignStmt) (ast.Stmt, bool) {
+	ops := map[token.Token]token.Token{token.ADD_ASSIGN: token.ADD, token.SUB_ASSIGN: token.SUB,
+		token.MUL_ASSIGN: token.MUL, token.QUO_ASSIGN: token.QUO}
+	op, ok := ops[s.Tok]
+	if !ok || len(s.Lhs) != 1 || len(s.Rhs) != 1 {
+		return nil, false
+	}
+	if _, ok := s.Lhs[0].(*ast.Ident); !ok {
+		return nil, false
+	}
+	return &ast.AssignStmt{Lhs: s.Lhs, TokPos: s.TokPos, Tok: token.ASSIGN,
+		Rhs: []ast.Expr{&ast.BinaryExpr{X: s.Lhs[0], Op: op, Y: &ast.ParenExpr{X: s.Rhs[0]}}}}, true
+}
+
+// ptrActAssign: `p = f(...)`, p a pointer / opaque variable, f an action
+func (x *tr) ptrActAssign(s *ast.AssignStmt) bool {
+	if s.Tok != token.ASSIGN || len(s.Lhs) != 1 || len(s.Rhs) != 1 {
+		return false
+	}
+	id, ok := s.Lhs[0].(*ast.Ident)
+	if !ok {
+		return false
+	}
+	if t, ok := x.vars[id.Name]; !ok || !strings.HasPrefix(t, "ptr:") {
+		return false
+	}
+	ce, ok := s.Rhs[0].(*ast.CallExpr)
+	if !ok {
+		return false
+	}
+	if _, ok := x.lookupAct(ce); !ok {
+		return false
+	}
+	x.actCall(ce)
+	return true
+}
+
+// newObject: `v := &T{...}` with the hint key `&T{}`
+func (x *tr) newObject(s *ast.AssignStmt) bool {
+	if s.Tok != token.DEFINE || len(s.Lhs) != 1 || len(s.Rhs) != 1 {
+		return false
+	}
+	id, ok := s.Lhs[0].(*ast.Ident)
+	if !ok {
+		return false
+	}
+	u, ok := s.Rhs[0].(*ast.UnaryExpr)
+	if !ok || u.Op != token.AND {
+		return false
+	}
+	cl, ok := u.X.(*ast.CompositeLit)
+	if !ok || cl.Type == nil {
+		return false
+	}
+	h, ok := x.t.Hints["&"+src(x.p.fset, cl.Type)+"{}"]
+	if !ok || h.Typ != "opaque" {
+		return false
+	}
+	x.vars[id.Name] = "ptr:?"
+	return true
+}
+
+// ---- LoopFrame ----
+
+var frameLoops = map[string]*loopCtx{} // target name -> its frame loop
+
+func (x *tr) isFrameLoop(s ast.Stmt) bool {
+	if x.t.LoopFrame <= 0 {
+		return false
+	}
+	l, ok := frameLoops[x.t.Name]
+	if !ok {
+		fd := x.p.funcs[x.t.Func]
+		if fd == nil || fd.Body == nil {
+			return false
+		}
+		l = findLoop(fd.Body, x.t.LoopFrame) // loopbody.go
+		frameLoops[x.t.Name] = l
+	}
+	return l.stmt == s
+}
+
+// frameLoop: replace the loop by `carried := loop_fn carried` and go on with the statements after it
+func (x *tr) frameLoop(s ast.Stmt, body *ast.BlockStmt, fs *ast.ForStmt, tail []ast.Stmt, rest [][]ast.Stmt) string {
+	as := map[string]bool{}
+	assignedIn(body, as) // loopbody.go
+	if fs != nil {
+		if fs.Init != nil {
+			fail("LoopFrame: loop with an init statement")
+		}
+		assignedIn(fs.Post, as)
+	}
+	var carried, ctypes []string
+	for n := range as {
+		if t, ok := x.vars[n]; ok && isBasic(t) {
+			carried = append(carried, n)
+		}
+	}
+	sort.Strings(carried)
+	if len(carried) == 0 {
+		fail("LoopFrame: the loop carries no scalar variable")
+	}
+	var names []string
+	for _, n := range carried {
+		ctypes = append(ctypes, x.vars[n])
+		names = append(names, cname(n))
+	}
+	p := x.param("loop_fn", "fn:"+strings.Join(ctypes, ","))
+	body2 := x.exec(tail, rest)
+	if len(carried) == 1 {
+		return "let " + names[0] + " := (" + p.coq + " " + names[0] + ") in\n  " + body2
+	}
+	tup := "(" + strings.Join(names, ", ") + ")"
+	return "let '" + tup + " := (" + p.coq + " " + tup + ") in\n  " + body2
+}
+
+// fnCoqType: "fn:int64,uint32" -> "(Z * Z -> Z * Z)"
+func fnCoqType(t string) string {
+	var cs []string
+	for _, c := range strings.Split(strings.TrimPrefix(t, "fn:"), ",") {
+		cs = append(cs, coqType(c))
+	}
+	ct := strings.Join(cs, " * ")
+	return "(" + ct + " -> " + ct + ")"
 }
